@@ -432,6 +432,10 @@ class FractionValue:
 
         def GetFractionalPart(value: float) -> float:
             str_value = str(value)
+            if "e" in str_value:
+                # Exponent notation is only used here for values below 1e-4 (larger ones have no
+                # fractional part): the whole value is the fractional part.
+                return value
             pos = str_value.find(".")
             return float("0." + str_value[pos + 1 :])
 
